@@ -233,6 +233,8 @@ archive_filter_uuencode_write(struct archive_write_filter *f, const void *buff,
 	while (archive_strlen(&state->encoded_buff) >= state->bs) {
 		ret = __archive_write_filter(f->next_filter,
 		    state->encoded_buff.s, state->bs);
+		if (ret != ARCHIVE_OK)
+			return (ret);
 		memmove(state->encoded_buff.s,
 		    state->encoded_buff.s + state->bs,
 		    state->encoded_buff.length - state->bs);
